@@ -9,7 +9,11 @@ import (
 	"golang.org/x/tools/go/ssa"
 )
 
-func init() { register("C08", ruleC08CopyFields, ruleC08Recursion, ruleC08Mix) }
+func init() {
+	register("C08", ruleC08CopyFields, ruleC08Recursion, ruleC08Mix,
+		// the projection loop passes inner results through exactly once (shared with C02); nested evaluation awaits itself (shared with C14)
+		ruleC02OnePerRow, ruleC14NestedWaits)
+}
 
 // ruleC08Mix: the `mix` top-level function flattens into storage of its own.
 func ruleC08Mix(c *Ctx) {
@@ -191,7 +195,7 @@ func ruleC08Recursion(c *Ctx) {
 					}
 				}
 			case "call":
-				if strings.HasSuffix(e.Callee, ".exec") && len(e.Args) > 0 && e.Args[0].Op == "call" {
+				if (strings.HasSuffix(e.Callee, ".exec") || strings.HasSuffix(e.Callee, ".execAndPostProcess")) && len(e.Args) > 0 && e.Args[0].Op == "call" {
 					sawExec = true
 					execCall = &Term{Op: "call", Name: e.Callee, Args: e.Args}
 				}
